@@ -826,6 +826,12 @@ class BaseSection(base.Sectionable):
         lst = childlist
         old_index = lst.index(self)
 
+        # A negative index counts from the end, as for lists; an index beyond
+        # either end moves the object to that end.
+        if new_index < 0:
+            new_index = max(0, len(lst) + new_index)
+        new_index = min(new_index, len(lst) - 1)
+
         # 2 cases: insert after old_index / insert before
         if new_index > old_index:
             new_index += 1
